@@ -7,6 +7,7 @@ from ..cfg import cfg_of
 from ..srcmodel import AnalysisError
 from ..rules import tables as T
 from ..rules import dom
+from .. import abseval
 from ..engine import get_cg, get_effects
 from . import c06
 
@@ -89,10 +90,14 @@ def run(ctx):
     g = cfg_of(rem.node)
     resets = [n for n in g.stmt_nodes() if n.kind == 'stmt' and isinstance(n.ast, ast.Assign) and unparse(n.ast.targets[0]).endswith('.chosen_child') and unparse(n.ast.value) == 'None']
     child = rem.params[1]
+    leaf_lists = (f"{child}.parent_xsd_element.xml_elements", f"{child}.parent_xsd_element._xml_elements")
+    detach = dom.nodes_calling(g, lambda c: isinstance(c.func, ast.Attribute) and c.func.attr == 'remove' and unparse(c.func.value).endswith(('.xml_elements', '._xml_elements'))
+                               and [unparse(a) for a in c.args] == [child])
     for r in resets:
         recv = unparse(r.ast.targets[0]).rsplit('.', 1)[0]
         extra = []
         have = False
+        empties = []
         for t, lab in dom.guards_of(g, r):
             if t.kind != 'test':
                 continue
@@ -104,9 +109,35 @@ def run(ctx):
                 if txt.startswith(f"{recv}.chosen_child == ") and lab == 'T':
                     have = True
                     continue
-                if f"{child}.parent_xsd_element.xml_elements" in txt or f"{child}.parent_xsd_element._xml_elements" in txt:
-                    continue        # a test on the emptiness of the removed child's own leaf
+                ex = dom.expand(g, c, t)
+                lists = [x for x in leaf_lists if x in unparse(ex)]
+                if lists:
+                    empties.append((ex, lab, t, lists[0]))     # a test on the element count of the removed child's own leaf
+                    continue
                 extra.append(f"{txt} [{lab}]")
+        # the commitment is dropped exactly when the leaf holds nothing else: a leaf with maxOccurs > 1 (segno+, rehearsal+, dynamics+ ...) may still hold
+        # elements of the chosen alternative, and the choice must stay committed to it
+        ok_empty = False
+        detail = "the reset does not depend on what the leaf still holds"
+        for ex, lab, t, lst in empties:
+            after = any(g.dominates(d, t) for d in detach)
+            cnt = f"len({lst})"
+            cases = {0: {(cnt, '0'): '=', (cnt, '1'): '<'}, 1: {(cnt, '0'): '>', (cnt, '1'): '='}, 2: {(cnt, '0'): '>', (cnt, '1'): '>'}}
+            verdicts = {}
+            for k, order in cases.items():
+                try:
+                    v = abseval.eval_expr(ex, {'__order__': order, '__assume__': {}})
+                except abseval.NotUnderstood:
+                    v = None
+                verdicts[k] = (v == ('const', lab == 'T')) if v is not None and v[0] == 'const' else None
+            want = {0: True, 1: False, 2: False} if after else {1: True, 2: False}
+            if all(verdicts.get(k) is want[k] for k in want):
+                ok_empty = True
+            else:
+                detail = f"`{unparse(ex)}` [{lab}] {'after' if after else 'before'} the child is taken out of the leaf: taken for counts {sorted(k for k, v in verdicts.items() if v)}"
+        res.check(ok_empty, 'R-PAIR.flags', rem.fq, "the commitment of the enclosing choice is dropped only when the removed child was the last element of its leaf",
+                  fail_detail=detail + " - after removing one of two <segno> the choice accepts a <coda>: both alternatives are serialised", key='R-PAIR.flags|chosen_child|last-of-leaf',
+                  line=r.line)
         res.check(have, 'R-PAIR.flags', rem.fq, "the commitment of the enclosing choice is dropped when the removed child's container was the chosen one",
                   key='R-PAIR.flags|chosen_child|guard')
         res.check(not extra, 'R-PAIR.flags', rem.fq, "no further condition keeps a stale commitment alive", fail_detail=str(extra), key='R-PAIR.flags|chosen_child|extra-guard',
